@@ -36,7 +36,8 @@ Obligations (what a VIOLATION names)
    footer.num_rows_is_fmd_num_rows (_metadata) / footer.num_rows_is_dataset_total_or_zero (_common_metadata: schema-only summary,
    exempt from num_rows == sum as in the bounded oracle), footer.other_fields_are_fmds_after_consolidation, fmd_restored,
    opens_fn_wb_through_open_with_only, raises_only_before_the_file_is_opened[key or value not text | other]
-   (REFUTED: finding C02-P-summary-file-truncated-before-key-value-check)
+   (was REFUTED before fix 4f80931 - record fixed-C02-summary-truncated-before-validation: the footer is now serialised into an
+   io.BytesIO, modelled on the same byte model, BEFORE fn is opened; the bytes written to fn are that buffer's content)
    (consolidate_categories before writing: contracts/c14_cats.py write_common_metadata.consolidates_before_writing - not repeated)
  _write_common_metadata.  simple_scheme_raises_before_any_write, metadata_with_row_groups_then_common_metadata_without,
    common_metadata_is_the_sibling_of_metadata, same_fmd_and_open_with_for_both
@@ -82,7 +83,6 @@ _ids = itertools.count(1)
 
 FID_EMPTY = "C02-P-empty-frame-leaves-zero-byte-part-file"
 FID_NOFMD = "C02-P-make-part-file-default-fmd-raises"
-FID_TRUNC = "C02-P-summary-file-truncated-before-key-value-check"
 FID_EMPTY_C07 = "C07-P-empty-frame-append-crashes-multi-file"
 
 
@@ -760,6 +760,22 @@ def run_write_common_metadata(ctx, funcs, timeout, nrg):
             return [(p, Custom(fh))]
         return h
 
+    class BufH(FileH):
+        """io.BytesIO(): an in-memory file on the same byte model (empty, position 0); getvalue() is its whole content"""
+
+        def call_method(self, eng, p, name, args, kw, node):
+            if name == "getvalue":
+                return [(p, BytesV(self.st(p)["content"]))]
+            return FileH.call_method(self, eng, p, name, args, kw, node)
+
+    def h_bytesio(eng, p, args, kw, node):
+        if args or kw:
+            raise Unsupported("io.BytesIO(initial bytes)")
+        b = BufH(f"buffer{next(_ids)}")
+        b.init(p, Bts(0, lambda i: z3.BitVecVal(0, 8)), 0)
+        ev(p, "buffer", b.key)
+        return [(p, Custom(b))]
+
     def h_consolidate(eng, p, args, kw, node):
         """contracts/c14_cats.py: only rewrites the value of the b'pandas' entry of fmd.key_value_metadata (num_categories)"""
         v = args[0]
@@ -772,7 +788,7 @@ def run_write_common_metadata(ctx, funcs, timeout, nrg):
         return [(p, NONE)]
     handlers = {"open_with": opener("open_with"), "open": opener("open"), "default_open": opener("default_open"),
                 "consolidate_categories": h_consolidate, "struct.pack": h_struct_pack, "copy": h_copy, "copy.copy": h_copy,
-                "with_exit": lambda e, q, st: [q]}
+                "io.BytesIO": h_bytesio, "BytesIO": h_bytesio, "with_exit": lambda e, q, st: [q]}
     eng = PEngine(funcs=funcs, handlers=handlers, inline=("write_thrift",), opaque_calls=True)
     install_byte_constants(eng)
     p = Path()
@@ -1714,6 +1730,7 @@ ASSUMED = FILE_ASSUMED + [
     "obj.to_bytes() serialises the fields the object has at that moment (byte behaviour: C10 / C16); every footer is shorter than 2**32 bytes",
     "consolidate_categories(fmd) (contracts/c14_cats.py) only rewrites the value of the b'pandas' key-value entry; it is idempotent",
     "partition_on_columns(...) (contracts/c08_paths.py) returns the list of the new row groups it wrote, file paths set",
-    "a file opened 'wb' is empty with position 0; opened in any other mode it keeps its previous content",
+    "a file opened 'wb' is empty with position 0; opened in any other mode it keeps its previous content; io.BytesIO() is an empty "
+    "in-memory file with the same write contract, getvalue() returns its whole content",
     "write_multi: the part loop's frames are arbitrary in number and length (RowsOfFrame(i) >= 0); find_max_part by contracts/c07_parts.py",
 ]
